@@ -562,12 +562,12 @@ PROPS = {
             "cfg": 6, "relevant": "RSMW"},
     "C14": {"seq": [("policy", 1024, 100, 40, 60), ("policy", 1024, 300, 40, 60), ("policy", 1024, 30, 20, 60),
                     ("policy", 1024, 1000, 30, 60), ("counter", 1024, 120, 20, 50), ("flush", 1024, 200, 20, 50),
-                    ("crowd", 600, 1000, 10, 120)],
+                    ("crowd", 600, 1000, 8, 120), ("crowd", 1500, 2500, 4, 240)],
             "conn": [("policy", 1024, 300, 15, 30)], "pol": 150, "relevant": "UMRP",
             "monitor_kinds": ["ACCT", "BOUND", "STUCK", "NONLIN", "VANISH"]},
     "C15": {"seq": [("policy", 1024, 100000, 40, 80), ("policy", 1024, 400, 40, 60), ("ttl", 1024, 500, 30, 60),
                     ("flush", 1024, 500, 30, 60), ("cas", 1024, 500, 30, 50), ("counter", 1024, 500, 20, 50),
-                    ("crowd", 600, 1000, 10, 120)],
+                    ("crowd", 600, 1000, 8, 120), ("crowd", 1500, 2500, 4, 240)],
             "pol": 150, "relevant": "UMRP", "monitor_kinds": ["ACCT", "BOUND", "STUCK", "NONLIN", "VANISH"]},
     "C17": {"seq": [("mix", 1024, None, 10, 20)], "limit": 8, "mlimit": 6, "cfg": 6, "relevant": "VS", "no_minimize": True},
     "C20": {"seq": [("mix", 1024, 1000000, 30, 40), ("mix", 1024, None, 10, 30)], "cfg": 8, "mlimit": 4, "pol": 60,
